@@ -39,7 +39,15 @@ func main() {
 	}
 	c := vf.Start("C06", "fault_enumeration")
 	var scens []scen
-	if c.Quick() {
+	if c.ReplayPath != "" {
+		var cd caseDesc
+		if err := c.LoadReplay(&cd); err != nil {
+			fmt.Println("replay:", err)
+			os.Exit(2)
+		}
+		replayK = cd.Crash
+		scens = []scen{cd.Scen}
+	} else if c.Quick() {
 		scens = []scen{
 			{Name: "linear", Kind: "linear", Pre: 1, LenA: 3},
 			{Name: "reorg-d1", Kind: "reorg", Pre: 1, LenA: 1, LenB: 2, Mode: "mixed", Nested: true},
@@ -74,6 +82,9 @@ func main() {
 		"crash = loss of all write units after k, units atomic, memorydb semantics; torn writes inside a unit and partial bulk flushes are not explored",
 		"relaxed DPoS; the LIB status saved in the tip transaction is restored by the real boot loader")
 }
+
+// replayK >= 0: replay mode, only this crash point of the replayed scenario is run
+var replayK = -1
 
 type phase struct {
 	label         string
@@ -222,6 +233,9 @@ func run(c *vf.Ctx, si int, s scen) {
 	var wg sync.WaitGroup
 	sem := make(chan struct{}, 4)
 	for k := 0; k <= m; k++ {
+		if replayK >= 0 && k != replayK {
+			continue
+		}
 		wg.Add(1)
 		sem <- struct{}{}
 		go func(k int) {
